@@ -5,6 +5,7 @@ from lib.runner import PropCheck, Stream
 F5_SIG = "F5:crl-rebuild-fault-retry-missing-serial"
 F5B_SIG = "F16:crash-after-record-write-retry-missing-serial"
 F13_SIG = "F17:crl-number-reused-after-unpersisted-counter"
+CONC_SIG = "served-crl-lacks-serial-after-concurrent-rebuild"
 TOK = re.compile(r"^([CD])(\d+):(\d+)\[([^\]]*)\](.*)$")
 
 
@@ -15,6 +16,9 @@ def split_trace(s):
 def trace_of(op, impl):
     """(tokens of the effective writes of this operation as far as the implementation reported them, cut kind)"""
     f = op.split("\t")
+    if f[0] == "conc":
+        # concurrent case: the schedule field lists the effective writes of both threads in global order
+        return [e.split(":", 1)[1] for e in split_trace(f[-1]) if ":" in e and not e.endswith(":L")], "conc"
     if "fault" in f[1:]:
         i = f.index("fault")
         if " w=" in impl:                       # fault not hit / swallowed: the request completed
@@ -42,7 +46,12 @@ class RevokeStream(Stream):
             "associations, safety_buffer 1s), config/crl (auto_rebuild, disable, allow_expired_cert_revocation), issuer "
             "add / delete, backend restart, clock ticks (thorough); (2) for a revoke or rotate after a random prefix: "
             "every single storage-operation failure followed by a retry, a rotate and a restart; (3) a storage death "
-            "after every prefix of its writes followed by a restart and a retry.  After each operation every issuer's "
+            "after every prefix of its writes followed by a restart and a retry; (4) concurrency: two goroutines on one "
+            "backend, a request that rebuilds the CRLs outside revokeStorageLock (issuer delete / generate / import, "
+            "config/crl, tidy) against a revoke, the storage wrapper as scheduler (the other request parked at its first "
+            "storage operation and at every operation from the start of its CRL build to its end; the revoke runs until it "
+            "finishes or blocks), the observed global order of writes and revoked/ listings replayed on the micro-step "
+            "model (trace validation).  After each operation every issuer's "
             "CRL is fetched, parsed and signature-checked, cert/<serial> and OCSP are queried for every certificate; "
             "every CRL written to storage is parsed as well.  non-trivial = operation did not end in an error class; "
             "distinct = distinct operation line (ordinals, classes, cut position and observed write prefix)")
@@ -99,11 +108,15 @@ class RevokeStream(Stream):
                         viol("OCSP does not report a successfully revoked, unexpired certificate as revoked (#%d: %s)" % (k, o),
                              "ocsp-not-revoked", idx)
                 if last_revoke_ok is not None:
-                    k, had_record_write = last_revoke_ok
+                    k, had_record_write, was_conc = last_revoke_ok
                     last_revoke_ok = None
                     iss, cls = certs.get(k, (0, "?"))
                     if not auto and not disable and iss in live and cls == "L" and ("#%d" % k) not in served.get(iss, set()):
-                        if not had_record_write and k in wrote_rec_then_failed:
+                        if was_conc:
+                            viol("revoke of #%d, running concurrently with another request that rebuilt the CRLs, returned success; "
+                                 "once both had returned the served CRL of issuer %d does not list the serial (auto_rebuild off)" % (k, iss),
+                                 CONC_SIG, idx)
+                        elif not had_record_write and k in wrote_rec_then_failed:
                             viol("revoke of #%d returned success on a retry after the CRL rebuild of the first attempt failed; "
                                  "the served CRL of issuer %d does not list the serial (auto_rebuild off)" % (k, iss), F5_SIG, idx)
                         elif not had_record_write and k in wrote_rec_then_crashed:
@@ -114,6 +127,19 @@ class RevokeStream(Stream):
                                  "served-crl-lacks-serial", idx)
                 continue
             toks, cut = trace_of(op, impl)
+            conc_r1 = None
+            if kind == "conc":
+                bars = [i for i, x in enumerate(f) if x == "|"]
+                if len(bars) != 2 or not impl.startswith("r1="):
+                    continue
+                conc_r1 = f[1:bars[0]]
+                f = f[bars[0] + 1:bars[1]]          # the revoke: ["revoke", k, mode]
+                kind = "revoke"
+                r1res, impl = impl[3:].split(" r2=", 1)
+                if conc_r1[0] in ("addissuer", "importissuer") and r1res.startswith("ok:i"):
+                    live.add(int(r1res[4:]))
+                elif conc_r1[0] == "delissuer" and r1res.startswith("ok"):
+                    live.discard(int(conc_r1[1]))
             # configuration as actually persisted
             for t in toks:
                 m = re.match(r"^G:a(\d)d(\d)x(\d)$", t)
@@ -151,11 +177,11 @@ class RevokeStream(Stream):
                     continue
                 k = int(m.group(2))
                 if m.group(1) == "r":
-                    if kind != "tidy":
+                    if kind != "tidy" and not (conc_r1 and conc_r1[0] == "tidy"):
                         viol("%s removed the revocation entry of #%d" % (kind, k), "revocation-entry-removed", idx)
                     elif certs.get(k, (0, "?"))[1] == "L":
                         viol("tidy removed the revocation entry of the unexpired certificate #%d" % k, "tidy-removed-unexpired", idx)
-                elif kind == "revoke" and k != target:
+                elif kind == "revoke" and k != target and not (conc_r1 and conc_r1[0] == "tidy"):
                     viol("revoke of #%s rewrote the revocation entry of #%d" % (target, k), "revocation-entry-altered", idx)
             if kind in ("addissuer", "importissuer") and impl.startswith("ok:i"):
                 live.add(int(impl.split(" ")[0][4:]))
@@ -176,7 +202,7 @@ class RevokeStream(Stream):
                         viol("repeated revoke of #%d reported another revocation time (t%d, first t%d)" % (target, stamp, success[target]),
                              "revoke-not-idempotent", idx)
                     success.setdefault(target, stamp)
-                    last_revoke_ok = (target, has_rec)
+                    last_revoke_ok = (target, has_rec, conc_r1 is not None)
                 elif impl.startswith("err") and has_rec:
                     wrote_rec_then_failed.add(target)
                 elif impl == "crashed" and has_rec:
@@ -192,7 +218,9 @@ class C16(PropCheck):
     level_text = ("Lean theorems over a micro-step model of pki revocation and CRL building (revoked_everywhere, "
                   "crl_number_increasing, revoke_idempotent, revoke_preserves_others, served_crl_lists_serial, revoke_restart "
                   "for every crash prefix, revoke_fault_retry for every fault position / crash prefix followed by a retry "
-                  "(findings F5/F16, repaired by e3ecbb3), crl_number_reuse_cex for finding F17); the model is tied to the Go code "
+                  "(findings F5/F16, repaired by e3ecbb3), served_crl_lists_serial_concurrent for every schedule of a revoke against "
+                  "one other rebuilding request (+ _cex for a coalescing builder), crl_number_reuse_cex for finding F17); "
+                  "the model is tied to the Go code "
                   "by a differential stream of random histories, all single-fault positions and all crash prefixes of "
                   "revoke / rotate on every run, and the property's predicate is evaluated directly on every CRL the "
                   "implementation writes or serves and on every status / OCSP answer")
